@@ -8,13 +8,15 @@
   Part 2 (interleaving): Model.CoProto; theorems hold for EVERY family of event programs obeying
   the discipline `Disc`, any number of goroutines, any schedule.  The order of events in
   thread.go is regenerated into Generated.ThreadEvents on every run; the per-run obligations
-  are the `threadEvents_*` theorems (closed by `decide`).  Today thread.go's `end` violates the
-  discipline in two places; what that breaks is stated and proved as `…_counterexample`
-  (concrete schedules of the interleaving semantics).
+  are the `threadEvents_*` theorems (closed by `decide`): the regenerated table obeys the
+  discipline, hence the generic theorems apply to every program assembled from it.  Two labelled
+  `example`s keep the schedules that the pre-repair order of `Thread.end` allowed (a race and a
+  self-deadlock), to show what the discipline rules out.
 -/
 import GoluaVerif.Proofs.C09Seq
 import GoluaVerif.Proofs.C09Proto
 import GoluaVerif.Proofs.C09Table
+import GoluaVerif.Proofs.C09Sys
 import GoluaVerif.Generated.ThreadEvents
 namespace GoluaVerif.Props.C09
 open GoluaVerif.Spec.Co (Id Val Msg Event Op Status tbcEvents)
@@ -329,28 +331,12 @@ theorem baton_unique_of_table (tbl : List Proc) (h : discTable tbl = true) (fam 
     (s : St) (hr : Reach fam s) (g k : Nat) (hbg : busy s g = true) (hbk : busy s k = true) : g = k :=
   baton_unique fam (table_programs_obey_disc tbl h fam h0 hg) s hr g k hbg hbk
 
-/-- the hypotheses of `baton_unique_of_table` are satisfiable with the regenerated table in the
-    proposed order of `end`: main resumes coroutine 1 and touches the runtime; coroutine 1 runs and ends -/
-example : ∃ fam : Nat → List Ev,
-    (∃ items, (∀ it ∈ items, it.wf (replaceEnd Generated.ThreadEvents.table proposedEnd)) ∧
-      fam 0 = mainProg (replaceEnd Generated.ThreadEvents.table proposedEnd) items) ∧
-    fam 1 = coProg (replaceEnd Generated.ThreadEvents.table proposedEnd) 1 0 0 0 [.run] :=
-  ⟨fun g => if g = 0 then mainProg (replaceEnd Generated.ThreadEvents.table proposedEnd) [.call "Resume" 1 1 0, .touch]
-            else coProg (replaceEnd Generated.ThreadEvents.table proposedEnd) 1 0 0 0 [.run],
-   ⟨[.call "Resume" 1 1 0, .touch], by
-      intro it hit
-      simp at hit
-      rcases hit with e | e <;> subst e
-      · exact ⟨by decide, by simp, by decide⟩
-      · trivial, by simp⟩, by simp⟩
-
 /-! ### per-run obligations over the regenerated event table -/
 
-/-- **per-run instance**: the event order regenerated from thread.go obeys the discipline
-    everywhere except (at most) for the two known kinds of violation in `end`.  When thread.go is
-    repaired the list is empty and `discTable Generated.table = true`. -/
-theorem threadEvents_disc_residual :
-    ∀ v ∈ discViolations Generated.ThreadEvents.table, v.kind ∈ knownKinds := by decide
+/-- **per-run instance**: the event order regenerated from thread.go (every path through Resume,
+    Close, Yield, end, Start, Start's goroutine, getResumeValues, sendResumeValues) obeys the
+    discipline `Disc` -/
+theorem threadEvents_disc : discTable Generated.ThreadEvents.table = true := by decide
 
 /-- **per-run instance**: in the regenerated table every receive is on the executing thread's own
     channel (Resume/Close run on the caller's goroutine and receive on `caller`; Yield, Start's
@@ -360,23 +346,108 @@ theorem threadEvents_own_recv : ownRecvTable Generated.ThreadEvents.table = true
 /-- the extractor classified every construct of the protocol functions -/
 theorem threadEvents_no_unclassified : Generated.ThreadEvents.problems = [] := by decide
 
-/-- with the proposed order of `end` (run the close stack before taking the mutexes; release the
-    accounted stack before the send) the regenerated table obeys the discipline -/
-theorem threadEvents_proposed_disc :
-    discTable (replaceEnd Generated.ThreadEvents.table proposedEnd) = true := by decide
+/-- **baton_unique for thread.go as it is in the tree**: every system of goroutines assembled from
+    the regenerated procedures — the main goroutine executing any sequence of Resume/Close/Yield/
+    Start calls (any path, any two distinct threads), Lua code and runtime accesses; any number of
+    coroutine goroutines, each Start.go + any such sequence + end — has, under every schedule, at
+    most one goroutine in the runtime. -/
+theorem threadEvents_baton_unique (fam : Nat → List Ev)
+    (h0 : ∃ items, (∀ it ∈ items, it.wf Generated.ThreadEvents.table) ∧
+      fam 0 = mainProg Generated.ThreadEvents.table items)
+    (hg : ∀ g, g ≠ 0 → fam g = [] ∨ ∃ t c iGo iEnd items, t ≠ c ∧
+      iGo < (findProc Generated.ThreadEvents.table "Start.go").paths.length ∧
+      iEnd < (findProc Generated.ThreadEvents.table "end").paths.length ∧
+      (∀ it ∈ items, it.wf Generated.ThreadEvents.table) ∧
+      fam g = coProg Generated.ThreadEvents.table t c iGo iEnd items)
+    (s : St) (hr : Reach fam s) (g k : Nat) (hbg : busy s g = true) (hbk : busy s k = true) : g = k :=
+  baton_unique_of_table _ threadEvents_disc fam h0 hg s hr g k hbg hbk
 
-/-- the counterexamples below are about what is in the tree: either both known kinds of
-    violation are present in the regenerated `end` (the counterexample families instantiate the
-    event order pinned in Model.CoProto), or the table already obeys the discipline -/
-theorem threadEvents_known_present_or_disc :
-    (∀ k ∈ knownKinds, ∃ v ∈ discViolations Generated.ThreadEvents.table, v.kind = k)
-    ∨ discTable Generated.ThreadEvents.table = true := by decide
+/-- the hypotheses of `threadEvents_baton_unique` are satisfiable: main resumes coroutine 1 and
+    touches the runtime; coroutine 1 runs and ends -/
+example : ∃ fam : Nat → List Ev,
+    (∃ items, (∀ it ∈ items, it.wf Generated.ThreadEvents.table) ∧
+      fam 0 = mainProg Generated.ThreadEvents.table items) ∧
+    fam 1 = coProg Generated.ThreadEvents.table 1 0 0 0 [.run] :=
+  ⟨fun g => if g = 0 then mainProg Generated.ThreadEvents.table [.call "Resume" 1 1 0, .touch]
+            else coProg Generated.ThreadEvents.table 1 0 0 0 [.run],
+   ⟨[.call "Resume" 1 1 0, .touch], by
+      intro it hit
+      simp at hit
+      rcases hit with e | e <;> subst e
+      · exact ⟨by decide, by simp, by decide⟩
+      · trivial, by simp⟩, by simp⟩
 
-/-- **baton_unique_counterexample** (thread.go today): main resumes coroutine 1, whose body
-    returns; after `end`'s send the main goroutine continues and is about to access the runtime
-    while coroutine 1's goroutine is about to execute `ReleaseBytes` — two goroutines at a
-    `touch` event in the same reachable state: the data race the Go race detector reports. -/
-theorem baton_unique_counterexample :
+/-! ## Part 3: data and event order together (Model.CoSys) -/
+
+/-- **no_deadlock** (full): thread.go's data (Model.CoSeq: status, caller) and event order
+    (Model.CoProto: mutexes, rendezvous on the per-thread channel, one goroutine per thread) run
+    together, for ANY number of threads, ANY script of operations in each thread's Lua code
+    (resume/close of any thread incl. itself, its resumer, dead ones; yield; return/error/kill;
+    create), ANY operations in the `__close` handlers run when a thread is closed, and ANY schedule: in every reachable state some goroutine can take a step, unless the
+    main thread's code has run to its end.  In particular every `send` of Resume/Close/Yield/end
+    finds the target thread's goroutine parked in its receive (the status checks guarantee it),
+    no goroutine ever waits for a mutex that will not be released, and control always comes back
+    to the resumer.  (Scheduler fairness is assumed for "comes back"; what is proved is that the
+    system is never stuck.) -/
+theorem no_deadlock (scripts handlers : Nat → List Op) (s : CoSys.St) (hr : CoSys.Reach scripts handlers s) :
+    (∃ s', CoSys.Step s s') ∨ CoSys.MainDone s :=
+  GoluaVerif.Proofs.C09Sys.progress (GoluaVerif.Proofs.C09Sys.J_reach hr)
+
+/-- in Model.CoSys, too, at most one goroutine holds the baton, a goroutine without it that is not
+    dead is parked in the receive on its own channel, and a dead thread's goroutine only unlocks -/
+theorem sys_parked_or_unlocking (scripts handlers : Nat → List Op) (s : CoSys.St)
+    (hr : CoSys.Reach scripts handlers s) :
+    (∀ g h, s.p.act g = true → s.p.act h = true → g = h) ∧
+    (∀ g, s.p.act g = false → (s.d.th g).status ≠ .dead → ∃ r, s.p.prog g = .recv g :: r) ∧
+    (∀ g, s.p.act g = false → (s.d.th g).status = .dead → ∀ e ∈ s.p.prog g, ∃ m, e = .unlock m) := by
+  have hJ := GoluaVerif.Proofs.C09Sys.J_reach hr
+  obtain ⟨fin, hI⟩ := hJ.pinv
+  exact ⟨hI.baton, fun g ha hd => (hJ.parked g ha hd).imp (fun r h => h.1), hJ.gone⟩
+
+/-- a non-trivial reachable state of Model.CoSys: main creates and resumes thread 1 and is parked
+    in Resume's receive while thread 1's goroutine holds the baton -/
+example : ∃ s, CoSys.Reach (fun g => if g = 0 then [.create, .resume 1 [7]] else [.yield [8]]) (fun _ => []) s ∧
+    s.p.act 1 = true ∧ s.p.act 0 = false ∧ s.d.cur = 1 := by
+  have h : ∃ s, CoSys.exec (CoSys.initSt (fun g => if g = 0 then [.create, .resume 1 [7]] else [.yield [8]]) (fun _ => []))
+      [.expand 0, .fire (.one 0), .fire (.one 0), .expand 0, .fire (.one 0), .fire (.one 0), .fire (.one 0),
+       .fire (.one 0), .fire (.one 0), .fire (.sync 0 1)] = some s ∧
+      s.p.act 1 = true ∧ s.p.act 0 = false ∧ s.d.cur = 1 := by
+    simp only [CoSys.exec]
+    exact ⟨_, rfl, by decide, by decide, by decide⟩
+  obtain ⟨s, hs, h1, h2, h3⟩ := h
+  exact ⟨s, GoluaVerif.Proofs.C09Sys.reach_of_exec _ CoSys.Reach.init hs, h1, h2, h3⟩
+
+/-- **per-run instance**: the event lists Model.CoSys executes are the paths of the regenerated
+    table (Resume and Close: early return and hand-off path; Yield: early return and hand-off
+    path; end; Start's goroutine; Start) -/
+theorem threadEvents_paths :
+    (findProc Generated.ThreadEvents.table "Resume").paths = [[.lock .self, .unlock .self], exResume] ∧
+    (findProc Generated.ThreadEvents.table "Close").paths = [[.lock .self, .unlock .self], exResume] ∧
+    (findProc Generated.ThreadEvents.table "Yield").paths = [[.lock .self, .unlock .self], exYield] ∧
+    (findProc Generated.ThreadEvents.table "end").paths = [fixedEnd] ∧
+    (findProc Generated.ThreadEvents.table "Start.go").paths = [exStartGo] ∧
+    (findProc Generated.ThreadEvents.table "Start").paths = [[.touch, .spawn]] := by decide
+
+/-- … and those lists, instantiated with the receiver thread and its caller, are literally
+    Model.CoSys's paths -/
+theorem sys_paths_are_table_paths (t g c : Nat) :
+    CoSys.resumePath t g = instPath t g exResume ∧ CoSys.refusedPath t = instPath t g [.lock .self, .unlock .self] ∧
+    CoSys.yieldPath g c = instPath g c exYield ∧ CoSys.endPath g c = instPath g c fixedEnd ∧
+    CoSys.startPath g = instPath g c exStartGo ∧ CoSys.createPath = instPath t g [.touch, .spawn] :=
+  ⟨rfl, rfl, rfl, rfl, rfl, rfl⟩
+
+/-! ### what the discipline rules out (HISTORICAL: the order of `Thread.end` before its repair) -/
+
+/-- the pre-repair order of `end` is refused by the discipline in exactly two places: Lua code run
+    with both mutexes held, and a runtime access after the send -/
+example : (discViolations (replaceEnd Generated.ThreadEvents.table preFixEnd)).map Violation.kind =
+    [("end", "run", "with-mutex-held"), ("end", "touch", "without-baton")] := by decide
+
+/-- HISTORICAL (pre-repair `end`, a family that does NOT obey `Disc`): main resumes coroutine 1,
+    whose body returns; after `end`'s send the main goroutine continues and is about to access the
+    runtime while coroutine 1's goroutine is about to execute `ReleaseBytes` — two goroutines at a
+    `touch` event in the same reachable state: the data race the Go race detector reported. -/
+example :
     ∃ s, Reach famRace s ∧ atTouch s 0 = true ∧ atTouch s 1 = true ∧ s.act 0 = true := by
   have h : ∃ s, runSched (initSt famRace) raceSched = some s ∧
       atTouch s 0 = true ∧ atTouch s 1 = true ∧ s.act 0 = true := by
@@ -385,12 +456,12 @@ theorem baton_unique_counterexample :
   obtain ⟨s, hs, h1, h2, h3⟩ := h
   exact ⟨s, reach_of_runSched Reach.init _ hs, h1, h2, h3⟩
 
-/-- **no_deadlock_counterexample** (thread.go today): coroutine 1 ends with a pending
+/-- HISTORICAL (pre-repair `end`, a family that does NOT obey `Disc`): coroutine 1 ends with a pending
     to-be-closed variable whose `__close` handler resumes coroutine 2.  The handler runs inside
     `end` with t.mux held; `Resume(t = 2, caller = 1)` locks mutex 1 again: the goroutine waits for a
     mutex it holds itself, the resumer is parked in its receive, nothing can ever move, and the
     main goroutine has not finished. -/
-theorem no_deadlock_counterexample :
+example :
     ∃ s, Reach famCloseResumes s ∧ Stuck s ∧ s.prog 0 ≠ [] ∧
       (∃ r, s.prog 1 = .lock 1 :: r) ∧ s.holder 1 = some 1 := by
   have h : ∃ s, runSched (initSt famCloseResumes) deadlockSched = some s ∧ stuckBelow 3 s = true ∧
